@@ -44,24 +44,24 @@ theorem identity_preserved (entry : Entry) (chain : List Frame) (p : Payload) (v
 /-- Even when some frame swallows the exception: what every catch block received, and the reason every async
 function's promise was rejected with, is `v` itself. -/
 theorem catch_receives_identity (entry : Entry) (chain : List Frame) (p : Payload) (v : JsVal)
-    (hp : p = .jsThrow v ∨ p = .natPanicVal v) (hrw : ∀ f ∈ chain, f.rewraps = false ∧ f.replaces = false)
+    (hp : p = .jsThrow v ∨ p = .natPanicVal v) (hrw : ∀ f ∈ chain, f.rewraps = false)
     (hu : v.goErrValue = none ∨ ∀ f ∈ chain, f.unwraps = false) :
     ∀ l ∈ (hostRun entry chain p).log, ∀ w, (l.kind = .caught w ∨ l.kind = .asyncReject w) → w = v := by
+  have hrw : ∀ f ∈ chain, f.rewraps = false ∧ f.replaces = false := fun f hf => ⟨hrw f hf, rfl⟩
   have hc : Carries v p.flow := by
     rcases hp with rfl | rfl <;> simp [Payload.flow, Carries]
   intro l hl w hw
   rcases hostRun_log_ok entry chain p hc hrw hu l hl with h | h | h | h <;>
     rcases hw with hw | hw <;> rw [h] at hw <;> cases hw <;> rfl
 
-/-- The code that exists: `Runtime.ForOf` calls the iterator's `return()` unguarded after the step callback threw,
-so an exception thrown by `return()` REPLACES the original one (ECMA-262 IteratorClose: the original throw
-completion wins; goja's own `for…of` statement does that).  Known finding C14 `forof-return-replaces-exception`,
-patch in fixes/.  This is why `Frame.swallows` (hypothesis `hsw` of the identity theorems) includes the `fot` frame.
-Negation of "identity through ForOf" on a concrete witness. -/
-theorem forof_return_replaces_exception_witness :
-    ¬ (∀ (v : JsVal) (ex : Exc), (hostRun .runString [.fot] (.jsThrow v)).host = .err (.exc ex) → ex.val = v) := by
+/-- Regression lemma about `Runtime.ForOf` BEFORE fix 51964d9 (`iter.returnIter()` unguarded after the step
+callback threw): an exception thrown by the iterator's return() replaced the original one.  (Now the `fot` frame
+is an ordinary non-swallowing frame of `identity_preserved`.) -/
+theorem forof_return_replaces_exception_prefix_witness :
+    ¬ (∀ (v : JsVal) (ex : Exc) (o : StackTop),
+        (fotPrefix 0 true (.panic (.exc ⟨v, .thrower⟩) .thrower)).1 = .panic (.exc ex) o → ex.val = v) := by
   intro h
-  have := h (.obj 1) ⟨.freshErr .error .other, .other⟩ (by decide)
+  have := h (.obj 1) ⟨.freshErr .error .other, .other⟩ .other (by decide)
   revert this
   decide
 
